@@ -179,6 +179,45 @@ def r11_send(ctx):
                 and sends[0][3].attrs == holder['m'].attrs
             ctx.require(ok, 'R10.6', f'send(open {clsname}).copy', w,
                         f'the device does not receive exactly one copy of the message: {sends}', construct=f'{sendf.qname}::copy')
+    # what is delivered shares nothing changeable with what was sent: a sysex message whose data came in as a list (through the
+    # constructor, attribute assignment or copy) is sent; the caller then still holds that list and the message
+    from ..fold import ClassRef as _CR
+    mcls = ctx.p.cls('mido.messages.messages', 'Message')
+    for route in ('constructor', 'assignment', 'copy'):
+        holder = {}
+
+        def thunk3(route=route):
+            port = pm.new_port(ai, ctx, 'BaseOutput', [], {})
+            lst = AList([1, 2, 3], 'list')
+            if route == 'constructor':
+                m = ai.apply(_CR(mcls), ['sysex'], {'data': lst}, None)
+            elif route == 'assignment':
+                m = ai.apply(_CR(mcls), ['sysex'], {}, None)
+                o_, sa = ctx.p.lookup_method(mcls, '__setattr__')
+                ai.call_function(sa, [m, 'data', lst], {})
+            else:
+                m0 = ai.apply(_CR(mcls), ['sysex'], {}, None)
+                m = pm.call(ai, ctx, m0, 'copy', [], {'data': lst})
+            holder['m'], holder['lst'] = m, lst
+            pm.call(ai, ctx, port, 'send', [m])
+            return port
+        outs = ai.explore(thunk3)
+        oc = one(ctx, 'R10.6', f'send(sysex, data given as a list to the {route})', w, outs, f'{sendf.qname}::copy-deep::{route}')
+        if oc is not None and oc.kind == 'return':
+            sends = pm.device_events(oc.log, '_send')
+            shared = []
+            for ev in sends:
+                got = ev[3]
+                if isinstance(got, AObj):
+                    for k, v in got.attrs.items():
+                        mutable = isinstance(v, (list, dict, set, bytearray)) or (isinstance(v, AList) and v.kind in ('list', 'bytearray', 'deque'))
+                        if mutable and (v is holder['lst'] or v is holder['m'].attrs.get(k)):
+                            shared.append(k)
+            ctx.require(len(sends) == 1 and not shared, 'R10.6', f'send(sysex, data given as a list to the {route}).independent', w,
+                        f'the message handed to the device shares the mutable value of {shared} with the sender (changing the sent object or the '
+                        f'list afterwards changes the received message); device calls: {len(sends)}', construct=f'{sendf.qname}::copy-deep')
+        elif oc is not None:
+            ctx.fail('R10.6', f'send(sysex, data given as a list to the {route})', w, f'{oc}', construct=f'{sendf.qname}::copy-deep::{route}')
     # not a message
     outs = ai.explore(lambda: pm.call(ai, ctx, pm.new_port(ai, ctx, 'BaseOutput', [], {}), 'send', ['not a message']))
     ctx.require(bool(outs) and all(o_.kind == 'raise' and o_.exc == 'TypeError' for o_ in outs), 'R11.3', 'send(non-message)', w, f'{outs}',
@@ -574,4 +613,49 @@ def r11_broken_pipe(ctx):
         ctx.functions.add(q)
 
 
-RULES = [('R11-broken-pipe', r11_broken_pipe), ('R11-socket', r11_socket), ('R11-server', r11_server), ('R11-close', r11_close), ('R11-send', r11_send), ('R11-receive', r11_receive), ('R11-multi', r11_multi)]
+def r11_reset_via_send(ctx):
+    """R11.8: reset(), panic() and the autoreset of close() hand their messages to send() - the method a port type may override
+    (the RtMidi and amidi outputs override send(), not the _send() hook).  send() is replaced by a recording double here: a
+    reset that writes to the device hook directly never reaches such a port, and its close() releases the device without the
+    reset messages the caller asked for."""
+    out = ctx.p.cls(P, 'BaseOutput')
+    o, sendf = ctx.p.lookup_method(out, 'send')
+    if sendf is None:
+        raise AnalysisError('BaseOutput.send not found')
+    n = 0
+    for meth, want, kw in (('reset', 32, {}), ('panic', 16, {}), ('close', 32, {'autoreset': True})):
+        ai = pm.make_interp(ctx)
+        pm.device_double(ai, ctx)
+        sent = []
+
+        def s_send(interp, args, kwargs, node, sent=sent):
+            sent.append(args[1] if len(args) > 1 else None)
+            log_event('mock', 'send-double', 'send', args[1:], {})
+            return None
+        ai.summaries[sendf.qname] = s_send
+        o2, fn = ctx.p.lookup_method(out, meth)
+        if fn is None:
+            continue
+        ctx.fn(fn)
+
+        def thunk(meth=meth, kw=kw, sent=sent):
+            del sent[:]
+            port = pm.new_port(ai, ctx, 'BaseOutput', [], dict(kw))
+            return pm.call(ai, ctx, port, meth)
+        outs = ai.explore(thunk)
+        n += 1
+        w = ctx.where(fn)
+        ok = len(outs) == 1 and outs[0].kind == 'return'
+        direct = pm.device_events(outs[0].log, '_send') if ok else []
+        ctx.require(ok and len(sent) == want and not direct, 'R11.8', f'{meth}({"autoreset" if kw else ""}).through-send', w,
+                    f'{meth}() hands {len(sent)} messages to send() and {len(direct)} straight to the device hook, expected {want} through send(): '
+                    f'{outs if not ok else ""} (a port type that overrides send() would not see them)', construct=f'{fn.qname}::bypasses-send')
+        if ok and meth == 'close':
+            evs = [e for e in outs[0].log if (e[0] == 'mock' and e[1] == 'send-double') or (e[0] == 'device' and e[1] == '_close')]
+            order_ok = [e[0] for e in evs] == ['mock'] * want + ['device']
+            ctx.require(order_ok, 'R11.8', 'close(autoreset).order', w, 'the device is not released after the reset messages, once',
+                        construct=f'{fn.qname}::reset-then-release')
+    ctx.floor('R11.8', n, 3)
+
+
+RULES = [('R11.8', r11_reset_via_send), ('R11-broken-pipe', r11_broken_pipe), ('R11-socket', r11_socket), ('R11-server', r11_server), ('R11-close', r11_close), ('R11-send', r11_send), ('R11-receive', r11_receive), ('R11-multi', r11_multi)]
